@@ -136,9 +136,9 @@ func runC13(w *World, r *Report, tier string) {
 				r.Check(bad == "", "R2", cons, w.pos(recv.Pos()), bad, fmt.Sprintf("%d exit path(s), each announces the disconnection once", n))
 			}
 		}
-		check("xmpp.(*Client).recv#exit:read-error", rl.errStart, nil)
+		check("xmpp.(*Client).recv#exit:read-error", rl.brStart, rl.errOnly(nil))
 		for _, name := range rl.typeNames(rl.universe) {
-			check("xmpp.(*Client).recv#exit:after:"+name, rl.okStart, typeEdgeFilter(rl.pkt, rl.universe[name]))
+			check("xmpp.(*Client).recv#exit:after:"+name, rl.brStart, rl.okOnly(typeEdgeFilter(rl.pkt, rl.universe[name])))
 		}
 	}
 
